@@ -143,6 +143,7 @@ func Load(opt Options) (*Program, error) {
 	if opt.Module == "" {
 		p.resolveRenames()
 		p.resolveFieldRenames()
+		paths.InModule = func(g *ssa.Function) bool { return p.inMod[g] }
 		// helper functions that did not exist on the confirmed tree are spliced into their callers' paths
 		paths.Inlineable = func(g *ssa.Function) bool {
 			if g == nil || !p.inMod[g] || g.Parent() != nil || len(g.Blocks) == 0 {
